@@ -207,7 +207,16 @@ def describe(hist):
 D2_SRCS = ["FBgn0031208.gff", "FBgn0031208.gtf", "gff_example1.gff3", "issue_197.gff", "synthetic.gff3", "intro_docs_example.gff", "hybrid1.gff3", "ensembl_gtf.txt"]
 
 
-def one_random_db(ctx, src, pre_merge, case_seed, n_reads, path):
+def schema_objects(path):
+    """names of the tables / indexes / views / triggers of the file (creating or dropping one is a write, whatever it holds)"""
+    c = sqlite3.connect(path)
+    try:
+        return sorted(tuple(r) for r in c.execute("SELECT type, name FROM sqlite_master").fetchall())
+    finally:
+        c.close()
+
+
+def one_random_db(ctx, src, pre_merge, case_seed, n_reads, path, drop_stats=False):
     """one data-file database, optionally a writer (merge_all) first, then a seeded random sequence of read-style calls;
     returns (clause or None, the sequence, statements traced, bytes-only note)"""
     import gffutils
@@ -220,7 +229,16 @@ def one_random_db(ctx, src, pre_merge, case_seed, n_reads, path):
     except Exception:  # noqa
         return None, [], [], False
     db.conn.close()
-    db = gffutils.FeatureDB(path)
+    if drop_stats:              # a database WITHOUT the statistics table (as written by other versions): opening it and reading from it still writes nothing
+        c0 = sqlite3.connect(path)
+        c0.execute("DROP TABLE IF EXISTS sqlite_stat1")
+        c0.commit()
+        c0.close()
+    objects0 = schema_objects(path)
+    import warnings
+    with dbio.quiet(), warnings.catch_warnings():
+        warnings.simplefilter("ignore")
+        db = gffutils.FeatureDB(path)
     if pre_merge:           # a WRITER ran on this handle before the reads (whatever it did is part of the "before" state)
         try:
             with dbio.quiet():
@@ -228,7 +246,11 @@ def one_random_db(ctx, src, pre_merge, case_seed, n_reads, path):
             db.conn.commit()
         except Exception:  # noqa
             db.conn.rollback()
-    before = (G.canon_snap(dbio.proj_file(path)), sha(path))
+    if not pre_merge and schema_objects(path) != objects0:
+        db.conn.close()
+        os.unlink(path)
+        return "open_changed_schema_objects", [], [], False
+    before = (G.canon_snap(dbio.proj_file(path)), sha(path), schema_objects(path))
     seq = [rng.choice(READ_KINDS) for _ in range(n_reads)]
     stmts = []
     db.conn.set_trace_callback(stmts.append)
@@ -241,9 +263,11 @@ def one_random_db(ctx, src, pre_merge, case_seed, n_reads, path):
     if w:
         bad = "read_issued:" + w[0].strip().split(None, 1)[0].upper()
     db.conn.close()
-    after = (G.canon_snap(dbio.proj_file(path)), sha(path))
+    after = (G.canon_snap(dbio.proj_file(path)), sha(path), schema_objects(path))
     if not bad and before[0] != after[0]:
         bad = "logical_content_changed"
+    if not bad and before[2] != after[2]:
+        bad = "schema_objects_changed"
     note = (not bad) and before[1] != after[1]
     os.unlink(path)
     return bad, seq, stmts, note
@@ -254,11 +278,11 @@ def random_reads(ctx, n_db, n_reads):
     for k in range(n_db):
         src = D2_SRCS[k % len(D2_SRCS)]
         case_seed = ctx.rng.randrange(2 ** 30)
-        bad, seq, stmts, note = one_random_db(ctx, src, k % 2 == 1, case_seed, n_reads, ctx.path("d2_%d.db" % k))
+        bad, seq, stmts, note = one_random_db(ctx, src, k % 2 == 1, case_seed, n_reads, ctx.path("d2_%d.db" % k), drop_stats=(k % 4 == 0))
         if note:
             ctx.extra["notes_bytes_changed_content_same"] = ctx.extra.get("notes_bytes_changed_content_same", 0) + 1
         if bad:
-            ctx.violation({"data_file": src, "reads": seq, "pre_merge_all": k % 2 == 1, "case_seed": case_seed, "n_reads": n_reads}, bad, {"first_statements": [s[:120] for s in stmts[:5]]})
+            ctx.violation({"data_file": src, "reads": seq, "pre_merge_all": k % 2 == 1, "case_seed": case_seed, "n_reads": n_reads, "drop_stats": k % 4 == 0}, bad, {"first_statements": [s[:120] for s in stmts[:5]]})
         ctx.count(("d2", src, seq), len(set(seq)) >= 2)
         ctx.extra["statements_traced"] = ctx.extra.get("statements_traced", 0) + len(stmts)
     ctx.traces += n_db
@@ -337,7 +361,7 @@ def run(ctx):
 def replay(ctx, rec):
     c = rec["case"]
     if "case_seed" in c:
-        return one_random_db(ctx, c["data_file"], c["pre_merge_all"], c["case_seed"], c["n_reads"], ctx.path("d2_replay.db"))[0] is not None
+        return one_random_db(ctx, c["data_file"], c["pre_merge_all"], c["case_seed"], c["n_reads"], ctx.path("d2_replay.db"), drop_stats=c.get("drop_stats", False))[0] is not None
     raw = rec["case"].get("raw")
     if not raw:
         raise core.CannotReplay("no executable case in this replay file")
